@@ -160,6 +160,13 @@ def pool_cases(tasks, res, timeout=240, hang_key=None):
             if hang_key:
                 res.fail(hang_key, f"case did not finish within {t.get('timeout', timeout)} s (a lifecycle call did not return?): {json.dumps(t['args'])[:200]}", dict(task=t))
             continue
+        if isinstance(r, dict) and r.get("hang"):
+            # a lifecycle call of the task did not return (token starvation of the generated graph, or a stall: C05's subject)
+            res.count("worker_hangs")
+            res.notes.append(f"{t['fn']} {json.dumps(t['args'])}: {r['hang']} did not return within its limit; the case is not judged here (see C05)")
+            if hang_key:
+                res.fail(hang_key, f"{r['hang']} did not return: {json.dumps(t['args'])[:200]}", dict(task=t))
+            continue
         if isinstance(r, dict) and "error" in r:
             res.count("worker_errors")
             res.notes.append(f"worker error on {t['args']}: {r['error'][:300]}")
